@@ -31,7 +31,9 @@ import Ops.Metadata
             case (`EbEnc.valueBlockHyps` for every value block: scheme kinds, block invariance under the change of
             mesh data, the decoder's parent attribute, sizes, int32 range, canonical normals, corner counts,
             crease counts; `EbEnc.ctIsoSideOk`; `EbEnc.tvIsoCheck` / `mdIsoCheck`: the decoder's and the encoder's
-            mesh data of the block are isomorphic under the corner map of `processed`), and the conclusion of `eb_value_block_conditional` evaluates to
+            mesh data of the block are isomorphic under the corner map of `processed`; `EbEnc.valueBlockHypsIso`:
+            the hypotheses of `eb_value_block_conditional_iso` — isomorphic VIEWS, `Hedge`, `OppInvol`, parent, side
+            conditions, marked with a prime), and the conclusion of `eb_value_block_conditional` evaluates to
             true (the decoder function on the decoder's mesh data returns the portable values and consumes exactly
             the block); otherwise `hyp-fails:<names>`. -/
 namespace Draco.Ops
@@ -146,7 +148,7 @@ def decodeMeshOnly : DecM Eb.Mesh := do
     the decoded connectivity `mesh`; `decS` = the geometry decoded with every transform skipped, from which the
     portable values of the position attribute are taken) -/
 def decoderSides (enc : Encoded) (mesh : Eb.Mesh) (decS : Geometry) (posId : Option Nat) :
-    Eb.R (Array (Nat × Eb.MeshData × Array Nat × Option Eb.Parent)) := do
+    Eb.R (Array (Nat × Eb.MeshData × Eb.SeqOut × Option Eb.Parent)) := do
   let streamAtts : List Nat := enc.order.toList.flatMap fun e => (enc.controllers[e]!).attIds.toList
   let decOf := fun (e : Nat) =>
     let c := enc.controllers[e]!
@@ -175,7 +177,7 @@ def decoderSides (enc : Encoded) (mesh : Eb.Mesh) (decS : Geometry) (posId : Opt
         let ints := ((leGroups 4 a.values).map (toSigned 32)).toArray
         parent := some { numComponents := a.numComponents, map := m, ints := ints, intsOk := true,
                          floats := #[], floatsOk := false }
-    out := out.push (seq.pointIds.size, ({ t := view, d2c := seq.d2c, v2d := seq.v2d } : Eb.MeshData), seq.pointIds, parent)
+    out := out.push (seq.pointIds.size, ({ t := view, d2c := seq.d2c, v2d := seq.v2d } : Eb.MeshData), seq, parent)
     k := k + 1
   pure out
 
@@ -188,7 +190,8 @@ def hypsOf (ch : EbChoices) (o : EbOpts) (g : Geometry) (enc : Encoded) (mesh : 
   | .ok sides =>
     let fails := (List.range enc.blocks.size).flatMap fun k =>
       let b := enc.blocks[k]!
-      let (n, mdD, pointIdsD, parentD) := sides[k]!
+      let (n, mdD, seqD, parentD) := sides[k]!
+      let pointIdsD := seqD.pointIds
       let hy := valueBlockHyps ch o.base b n mdD pointIdsD parentD
       -- the conclusion
       let comps := (g.atts.getD b.attId default).numComponents
@@ -201,7 +204,10 @@ def hypsOf (ch : EbChoices) (o : EbOpts) (g : Geometry) (enc : Encoded) (mesh : 
       let φ := phiOf enc.conn.processed
       let (psi, back, cback) := buildMaps mdD.t b.md.t φ
       let iso := (if tvIsoCheck mdD.t b.md.t φ psi back cback then [] else ["tvIso"]) ++
-                 (if mdIsoCheck mdD b.md φ psi then [] else ["mdIso"])
+                 (if mdIsoCheck mdD b.md φ psi then [] else ["mdIso"]) ++
+                 -- the hypotheses of `eb_value_block_conditional_iso` (views isomorphic ⇒ block read back)
+                 (valueBlockHypsIso ch o.base b mdD.t seqD parentD φ psi back cback).map (· ++ "'") ++
+                 (if enc.conn.processed.size == mdD.t.numFaces then [] else ["processedSize"])
       (hy ++ iso ++ (if concl then [] else ["conclusion"])).map fun nme => s!"{b.attId}.{nme}"
     let side := if ctIsoSideOk enc.conn.ct mesh.numFaces mesh.c2v then [] else ["ctIsoSide"]
     let all := fails ++ side
